@@ -99,6 +99,40 @@ func reqMutations(l int) []fieldMut {
 			fieldMut{fmt.Sprintf("y[%d]+1", i), func(r *ps.RawBlindSignature, p *ps.RawBlindCorrectProof) { p.Y[i] = zrplus(p.Y[i]) }},
 		)
 	}
+	// surplus / missing components: a request is exactly what the prover built, no longer, no shorter
+	type vecs struct {
+		name string
+		get  func(r *ps.RawBlindSignature, p *ps.RawBlindCorrectProof) *[][]byte
+	}
+	for _, vc := range []vecs{
+		{"a", func(r *ps.RawBlindSignature, p *ps.RawBlindCorrectProof) *[][]byte { return &r.A }},
+		{"b", func(r *ps.RawBlindSignature, p *ps.RawBlindCorrectProof) *[][]byte { return &r.B }},
+		{"d", func(r *ps.RawBlindSignature, p *ps.RawBlindCorrectProof) *[][]byte { return &p.D }},
+		{"f", func(r *ps.RawBlindSignature, p *ps.RawBlindCorrectProof) *[][]byte { return &p.F }},
+		{"x", func(r *ps.RawBlindSignature, p *ps.RawBlindCorrectProof) *[][]byte { return &p.X }},
+		{"y", func(r *ps.RawBlindSignature, p *ps.RawBlindCorrectProof) *[][]byte { return &p.Y }},
+	} {
+		vc := vc
+		ms = append(ms,
+			fieldMut{"surplus-" + vc.name + "-copy-of-first", func(r *ps.RawBlindSignature, p *ps.RawBlindCorrectProof) {
+				v := vc.get(r, p)
+				*v = append(append([][]byte(nil), *v...), (*v)[0])
+			}},
+			fieldMut{"surplus-" + vc.name + "-copy-of-last-twice", func(r *ps.RawBlindSignature, p *ps.RawBlindCorrectProof) {
+				v := vc.get(r, p)
+				last := (*v)[len(*v)-1]
+				*v = append(append([][]byte(nil), *v...), last, last)
+			}},
+			fieldMut{"missing-last-" + vc.name, func(r *ps.RawBlindSignature, p *ps.RawBlindCorrectProof) {
+				v := vc.get(r, p)
+				*v = append([][]byte(nil), (*v)[:len(*v)-1]...)
+			}},
+		)
+	}
+	ms = append(ms, fieldMut{"surplus-a-and-b", func(r *ps.RawBlindSignature, p *ps.RawBlindCorrectProof) {
+		r.A = append(append([][]byte(nil), r.A...), r.A[0])
+		r.B = append(append([][]byte(nil), r.B...), r.B[0])
+	}})
 	if n >= 2 {
 		ms = append(ms,
 			fieldMut{"swap-a[0]-a[1]", func(r *ps.RawBlindSignature, p *ps.RawBlindCorrectProof) { r.A[0], r.A[1] = r.A[1], r.A[0] }},
